@@ -90,7 +90,7 @@ def main():
         "setup_cmd": "cd /verif && ./check --build-only",
         "hooks": {
             "guard": "verif",
-            "enable": "go build -tags verif (the ./check script passes -tags verif; hook files carry //go:build verif)",
+            "enable": "go build -tags verif (hook files carry //go:build verif). Only C18's shared-state digest uses the hooks: ./check builds every monitor against the library WITHOUT the tag (the default build is what users run) and C18 repeats itself on a -tags verif build as a child process",
             "baseline_off_cmd": "cd /repo && GOFLAGS=-mod=mod GOPROXY=off GOSUMDB=off GOTOOLCHAIN=local go test -json -vet=off -count=1 -timeout 25m ./...",
             "source_commits": hooks_commits,
             "add_only": True,
